@@ -72,12 +72,17 @@ Text(v) == CASE v.k = "str"  -> v.s
              [] v.k = "null" -> "null"
              [] OTHER        -> "?"
 
+\* the strs of digits of the vocabulary and the ints they are the text of
+DigitStrs == [x \in {"5", "7", "12", "40"} |-> CASE x = "5" -> 5 [] x = "7" -> 7 [] x = "12" -> 12 [] x = "40" -> 40]
 \* "converted to the declared type" (the conversion itself is the subject of C02; here it is shared by Ref and Alg).
 \* src = "argv": the value arrives as text (a str parameter keeps the text);  src = "cfg": as a YAML/JSON value.
 ConvBase(t, v, src) ==
   CASE t = "int"     -> IF v.k = "int"  THEN v ELSE Bad
     [] t = "bool"    -> IF v.k = "bool" THEN v ELSE Bad
     [] t = "listint" -> IF v.k = "list" THEN v ELSE Bad
+    [] t = "unionis" -> IF v.k = "int" THEN v                                   \* Union[int, str]: int is tried first; a str of digits is loaded and IS an int
+                        ELSE IF v.k = "str" THEN (IF v.s \in DOMAIN DigitStrs THEN VInt(DigitStrs[v.s]) ELSE v)
+                        ELSE IF src = "argv" /\ v.k \in {"bool", "null", "list", "dict", "tup"} THEN VStr(Text(v)) ELSE Bad
     [] t = "dictint" -> IF v.k = "dict" THEN v ELSE Bad
     [] t = "tupis"   -> IF v.k = "tup"  THEN v ELSE Bad
     [] t = "enum"    -> IF v.k = "str" /\ v.s \in EnumMembers THEN VEnum(v.s) ELSE Bad
@@ -246,7 +251,10 @@ RefOutcomes(cs) == LET as == RefAsgs(cs)
 (* Alg layer: shape of the parser derived from the signatures              *)
 (* SignatureArguments._add_signature_parameter, _signatures.py:322-442     *)
 (***************************************************************************)
-AlgDefault(p)  == IF p.hd THEN p.d ELSE IF IsOpt(p.t) THEN VNull ELSE NoVal                 \* :340-346  is_optional -> None
+\* recorded deviation "union-default-digits": the default goes through the type like a given value (ActionTypeHint
+\* normalises / get_defaults checks it), so the signature default "5" of a Union[int, str] parameter becomes the int 5
+AlgDefault(p)  == IF p.hd THEN (IF p.t = "unionis" /\ p.d.k = "str" THEN Conv("unionis", p.d, "cfg") ELSE p.d)
+                  ELSE IF IsOpt(p.t) THEN VNull ELSE NoVal                                  \* :340-346  is_optional -> None
 AlgRequired(p) == AlgDefault(p) = NoVal                                                     \* :347
 AlgSkipped(p)  == ~AlgRequired(p) /\ Underscore(p.n)                                        \* :359
 AlgType(p)     == IF ~AlgRequired(p) /\ AlgDefault(p) = VNull /\ ~IsOpt(p.t) THEN Opt(p.t) ELSE p.t   \* :370-373
@@ -282,6 +290,8 @@ IsProperPrefix(p, o) == Len(p) < Len(o) /\ SubSeq(o, 1, Len(p)) = p
 AlgAmbiguous(cs, l, n) == \E k \in 0..(Len(l) - 1) : LET up == SubSeq(l, 1, k) IN
                             /\ ("--" \o n) \notin OptStrings(cs, up)
                             /\ Cardinality({o \in OptStrings(cs, up) : IsProperPrefix("--" \o n, o)}) >= 2
+
+AmbiguousSubOptionIn(c) == LET as == RefAsgs(c) IN \E i \in 1..Len(as) : as[i].o /\ AlgAmbiguous(c, as[i].lvl, as[i].n)
 
 \* cfg: the parsed namespace, flattened: a function from keys (level \o <<name>>) to values
 CfgHas(cfg, key) == key \in DOMAIN cfg
@@ -331,10 +341,12 @@ InitCase(c) == /\ cs = c /\ pc = "defaults" /\ toks = c.argv /\ lvl = << >> /\ n
                /\ cfg = EmptyFn /\ calls = << >> /\ ret = "" /\ meth = "" /\ mcfg = EmptyFn /\ out = "run"
 
 \* parse_args:450  cfg = get_defaults()
+\* (the root parser classifies the whole command line first: an ambiguous option anywhere fails before anything is consumed)
 ADefaults == /\ pc = "defaults"
-             /\ cfg' = AlgFillDefaults(cs, << >>, cfg, 1)
-             /\ pc' = "argv"
-             /\ UNCHANGED <<cs, toks, lvl, npos, calls, ret, meth, mcfg, out>>
+             /\ IF AmbiguousSubOptionIn(cs) THEN Fail("reject")
+                ELSE /\ cfg' = AlgFillDefaults(cs, << >>, cfg, 1)
+                     /\ pc' = "argv"
+                     /\ UNCHANGED <<cs, toks, lvl, npos, calls, ret, meth, mcfg, out>>
 
 \* argparse consumes a bare word: the next positional of the current parser, else the sub-command action
 \* (_ActionSubCommands.__call__ hands the rest of argv to the sub-parser, _actions.py:661-690)
@@ -345,6 +357,8 @@ APositional == /\ pc = "argv" /\ toks # << >> /\ Head(toks).k = "pos"
                          IF val = Bad THEN Fail("reject")
                          ELSE /\ cfg' = Put(cfg, lvl \o <<ps[npos + 1].dest>>, val) /\ npos' = npos + 1 /\ toks' = Tail(toks)
                               /\ UNCHANGED <<cs, pc, lvl, calls, ret, meth, mcfg, out>>
+                    ELSE IF tk.v.k = "str" /\ tk.v.s \in LvlSubs(cs, lvl) /\ tk.v.s = "config" /\ AlgHasConfig(cs, lvl)
+                    THEN Fail("crash")      \* recorded deviation "sub-named-config": namespace["config"] is the --config option's value (None / a list), _actions.py:672 calls .clone() on it
                     ELSE IF tk.v.k = "str" /\ tk.v.s \in LvlSubs(cs, lvl)
                     THEN /\ cfg' = Put(cfg, lvl \o <<"subcommand">>, tk.v)
                          /\ lvl' = lvl \o <<tk.v.s>> /\ npos' = 0 /\ toks' = Tail(toks)
@@ -386,6 +400,7 @@ ASubcommands ==
               sel == IF CfgHas(cfg, lvl \o <<"subcommand">>) THEN cfg[lvl \o <<"subcommand">>].s
                      ELSE IF Len(withs) > 0 THEN withs[1] ELSE ""
           IN IF sel = "" THEN Fail("reject")                              \* :732-743 required sub-command not provided
+             ELSE IF sel = "config" /\ AlgHasConfig(cs, lvl) THEN Fail("crash")   \* deviation "sub-named-config": cfg["config"] is the option's list of paths, not a section (:792)
              ELSE LET others == {key \in DOMAIN cfg : \E s \in LvlSubs(cs, lvl) \ {sel} : IsPrefixSeq(lvl \o <<s>>, key) /\ Len(key) > Len(lvl)}
                       c1 == Put(DelKeys(cfg, others), lvl \o <<"subcommand">>, VStr(sel))
                   IN /\ cfg' = AlgFillDefaults(cs, lvl \o <<sel>>, c1, 1)
@@ -475,8 +490,17 @@ HiddenButRequiredByPython == \E l \in AllLevels : \E i \in 1..Len(LvlParams(cs, 
 (* parameter of the class) is rejected as ambiguous although the           *)
 (* sub-command has exactly that option.                                    *)
 (***************************************************************************)
-AmbiguousSubOption == LET as == RefAsgs(cs) IN \E i \in 1..Len(as) : as[i].o /\ AlgAmbiguous(cs, as[i].lvl, as[i].n)
-Deviation == HiddenButRequiredByPython \/ AmbiguousSubOption
+\* Three more recorded deviations (findings "method-parameter-named-config", "sub-named-config", "union-default-digits"):
+\*  - a METHOD parameter called config is offered as --config of the method (no config file option there, _cli.py:188) but
+\*    _run_component pops the key "config" from the method's namespace (:207): the value is dropped (TypeError if required);
+\*  - a component / method that is itself called config cannot be selected (AttributeError, see APositional);
+\*  - the signature default "5" of a Union[int, str] parameter reaches the callee as 5 (see AlgDefault).
+MethodParameterNamedConfig == \E l \in AllLevels : LvlKind(cs, l) = "method" /\ "config" \in ParamNames(LvlParams(cs, l))
+SubNamedConfigSelected == LET as == RefAsgs(cs) IN \E i \in 1..Len(as) : as[i].src \in {"sel", "selc"} /\ as[i].v.s = "config" /\ AlgHasConfig(cs, as[i].lvl)
+UnionDefaultDigits == \E l \in AllLevels : \E i \in 1..Len(LvlParams(cs, l)) :
+                         LET p == LvlParams(cs, l)[i] IN p.hd /\ p.t = "unionis" /\ p.d.k = "str" /\ p.d.s \in DOMAIN DigitStrs
+AmbiguousSubOption == AmbiguousSubOptionIn(cs)
+Deviation == HiddenButRequiredByPython \/ AmbiguousSubOption \/ MethodParameterNamedConfig \/ SubNamedConfigSelected \/ UnionDefaultDigits
 
 (***************************************************************************)
 (* Invariants (checked by MC_Cli on every state of the bounded instance)   *)
@@ -492,7 +516,7 @@ OwnParameters == (Done /\ out = "ok") =>
              /\ DOMAIN calls[Len(calls)].kw = ParamNames(LvlParams(cs, lvl))
              /\ Len(calls) = 2 => DOMAIN calls[1].kw = ParamNames(LvlParams(cs, FrontSeq(lvl)))
 ReturnPassedThrough == (Done /\ out = "ok") => ret = "ret:" \o calls[Len(calls)].name
-NeverCrashes == out = "crash" => HiddenButRequiredByPython
+NeverCrashes == out = "crash" => (HiddenButRequiredByPython \/ MethodParameterNamedConfig \/ SubNamedConfigSelected)
 \* the clauses of the property, on the derived parser shape (every level of the component; once per case)
 ShapeLaws == pc = "defaults" => \A l \in {x \in AllLevels : LvlKind(cs, x) # "none"} : \A i \in 1..Len(LvlParams(cs, l)) :
                LET p == LvlParams(cs, l)[i] IN
@@ -500,5 +524,5 @@ ShapeLaws == pc = "defaults" => \A l \in {x \in AllLevels : LvlKind(cs, x) # "no
                  /\ (~p.hd /\ IsOpt(p.t)) => (AlgDefault(p) = VNull /\ ~Action(p, cs.aspos).pos)   \* Optional without default: option defaulting to None
                  /\ Action(p, cs.aspos).pos <=> (AlgRequired(p) /\ cs.aspos)
                  /\ AlgRequired(p) = RefRequired(p) /\ AlgType(p) = RefType(p) /\ AlgSkipped(p) = RefHidden(p)
-                 /\ (~AlgRequired(p)) => AlgDefault(p) = RefDefault(p)
+                 /\ (~AlgRequired(p) /\ ~UnionDefaultDigits) => AlgDefault(p) = RefDefault(p)
 =============================================================================
